@@ -41,8 +41,8 @@ fn contents(v: f64, salt: usize) -> Vec<NumSpec> {
 
 fn cases(tier: Tier) -> Vec<Case> {
     let vals: Vec<f64> = tier.pick(
-        vec![-7.5, -2.0, -0.5, 0.5, 2.0, 7.5, 3.0],
-        vec![-7.5, -2.0, -0.5, 0.5, 2.0, 7.5, 3.0, -3.0, 1e-3, -1e-3, 1e6, -1e6, 0.3, -0.7],
+        vec![-7.5, -2.0, -0.5, 0.5, 2.0, 7.5, 3.0, 0.0, -0.0],
+        vec![-7.5, -2.0, -0.5, 0.5, 2.0, 7.5, 3.0, 0.0, -0.0, -3.0, 1e-3, -1e-3, 1e6, -1e6, 0.3, -0.7],
     );
     let mut pool: Vec<NumSpec> = vec![];
     for (k, v) in vals.iter().enumerate() {
@@ -141,6 +141,10 @@ pub fn check(case: &Case, idx: u64, acc: &mut Acc) {
             }
         }
         Case::Abs { a } => {
+            if a.v == 0.0 {
+                acc.skip();
+                return;
+            }
             if a.v < 0.0 && !a.names.is_empty() {
                 acc.nontrivial();
             }
@@ -172,6 +176,10 @@ pub fn check(case: &Case, idx: u64, acc: &mut Acc) {
             }
         }
         Case::Rem { a, b } => {
+            if b.v == 0.0 {
+                acc.skip();
+                return;
+            }
             let q = a.v / b.v;
             // on a discontinuity of the truncated quotient (a/b within rounding of an integer without being
             // one exactly) "a - b*trunc(a/b)" has two defensible floating-point values that differ by |b|:
@@ -232,6 +240,33 @@ pub fn check(case: &Case, idx: u64, acc: &mut Acc) {
             for x in xs {
                 r1 = r1.add(&x.refd1());
                 r2 = r2.add(&x.refd2());
+            }
+            // realisation 2: equal items are clones of ONE object (shared Arc), as a user summing a reused number would have
+            {
+                let mut distinct: Vec<&NumSpec> = vec![];
+                for x in xs.iter() {
+                    if !distinct.iter().any(|d| *d == x) {
+                        distinct.push(x);
+                    }
+                }
+                let objs1: Vec<Dual> = distinct.iter().map(|d| d.dual(&u)).collect();
+                let objs2: Vec<rateslib::dual::Dual2> = distinct.iter().map(|d| d.dual2(&u)).collect();
+                let pick = |x: &NumSpec| distinct.iter().position(|d| *d == x).unwrap();
+                let sh1: Dual = xs.iter().map(|x| objs1[pick(x)].clone()).sum();
+                if let Err(e) = cmp_dual(&sh1, &r1, &u, TOL, TOL) {
+                    acc.violate("sum/Dual/shared-storage", idx, cj(), json!(r1.val.v), json!(e));
+                }
+                let sh2: rateslib::dual::Dual2 = xs.iter().map(|x| objs2[pick(x)].clone()).sum();
+                if let Err(e) = cmp_dual2(&sh2, &r2, &u, TOL, TOL, TOL) {
+                    acc.violate("sum/Dual2/shared-storage", idx, cj(), json!(r2.val.v), json!(e));
+                }
+                let shn: Number = xs.iter().map(|x| Number::Dual(objs1[pick(x)].clone())).sum();
+                if let (Number::Dual(d), false) = (&shn, xs.is_empty()) {
+                    if let Err(e) = cmp_dual(d, &r1, &u, TOL, TOL) {
+                        acc.violate("sum/Number1/shared-storage", idx, cj(), json!(r1.val.v), json!(e));
+                    }
+                }
+                acc.evals_add(3);
             }
             let s1: Dual = xs.iter().map(|x| x.dual(&u)).sum();
             acc.outcome(&("sum", s1.real().to_bits(), xs.len()));
